@@ -359,8 +359,20 @@ def concurrency(ctx, prop, mod):
     res = os.path.join(ctx.tmp, 'conc.json')
     logp = os.path.join(ctx.tmp, 'race')
     env = dict(mod.ENV, GORACE='log_path=%s halt_on_error=0' % logp)
-    mod.run([ctx.bin, 'conc', '-rounds', str(rounds), '-clients', str(clients), '-depth', str(steps), '-seed', str(ctx.seed), '-out', res],
-            3000, env=env, ok=(0, 66))
+    ccmd = [ctx.bin, 'conc', '-rounds', str(rounds), '-clients', str(clients), '-depth', str(steps), '-seed', str(ctx.seed), '-out', res]
+    cout = mod.run(ccmd, 3000, env=env, ok=(0, 66, 2))
+    if 'fatal error: concurrent map' in cout:
+        # the Go runtime's own detector killed the process: unsynchronised access to a map from two requests.
+        # That is a data race; it counts against the library when a frame of the crash lies in the repository.
+        repo = os.environ.get('VERIF_REPO') or '/repo'
+        if repo + '/' in cout:
+            violation(ctx, prop, 'race:library', dict(report=cout[cout.index('fatal error: concurrent map'):][:6000], replay_cmd=' '.join(ccmd[1:])))
+            return
+        mod.die('concurrent map access in harness code only (machinery problem, not a verdict)')
+    if not os.path.exists(res):
+        import sys
+        sys.stderr.write(cout[-3000:])
+        mod.die('concurrent driver failed')
     r = json.load(open(res))
     ctx.cov.update(concurrent_rounds=r['rounds'], clients_per_round=r['clients'], transcript_lines_compared=r['steps'],
                    race_detector=True, default_components=['defaults.Router', 'defaults.HTTPBodyReader', 'defaults.Responder',
